@@ -455,6 +455,23 @@ def prog_shard(shard):
     return p
 
 
+def long_shard(shard):
+    from vf.checks import c02, c07
+    seed, k, ci = shard
+    name, prog, _n = c07.long_programs(seed)[k]
+    caches = None if ci is None else c02.CACHED[ci]
+    p = Partial()
+    exp, bad = check_prog(prog, c07.LONG_REGS, c07.LONG_WORDS, 6000, caches)
+    p.evaluations += 1
+    p.nontrivial += 1
+    if exp.steps > 256:
+        p.counters["run-longer-than-256-instructions"] += 1
+    for f, d in bad:
+        p.violation(dict(oracle="program", field=f, long="run"), prog_case(prog, c07.LONG_REGS, c07.LONG_WORDS, 6000, caches),
+                    f"{name} [{rv.prog_text(prog[:8])}{' ...' if len(prog) > 8 else ''}] caches {caches}: {d}", size=(len(prog), k))
+    return p
+
+
 STR_REGS = None
 
 
@@ -542,4 +559,9 @@ def run(ctx):
         part = pmap(cached_shard, [(L, f) for f in range(len(c03.mem_alphabet()))])
         ctx.space(f"single-cycle-with-caches-len{L}", part, t0, length=L, cache_configurations=6)
     ctx.require("single-cycle-with-caches", "print-string-behind-a-store-with-caches")
+    from vf.checks import c02, c07
+    t0 = time.time()
+    part = pmap(long_shard, [(seed, k, ci) for k in range(len(c07.long_programs(seed))) for ci in (None, 2)])
+    ctx.space("long-runs", part, t0, programs=[n for n, _p, _k in c07.long_programs(seed)], note="hundreds / thousands of steps, compared with the golden model after every step")
+    ctx.require("run-longer-than-256-instructions")
     ctx.extra["bounds"] = dict(program_length_H18=3 if ctx.quick else 5, program_length_H30=3 if ctx.quick else 4, step_horizon=steps)
